@@ -494,7 +494,16 @@ class FunctionAnalysis:
         elif isinstance(t, ast.Subscript):
             base = self.eval(t.value, env)
             self.eval(t.slice, env)
-            self.mutate(base, t, 'item store', stmt_node=st)
+            if isinstance(t.value, ast.Attribute) and t.value.attr in DICT_ATTRS:
+                # x.coords[k] = v inserts into the metadata dict of the object x itself.  A view, a shallow copy or a new
+                # DataArray around the same buffers has its own dict: the insertion does not reach the object it was made from.
+                owner = self.eval(t.value.value, env)
+                itself = bool(owner.cont) and all(not tok.endswith('[]') for tok in owner.cont) \
+                    and owner.elem == frozenset(tok + '[]' for tok in owner.cont)
+                if itself:
+                    self.mutate(AV(owner.cont, frozenset()), t, f'item store into .{t.value.attr}', stmt_node=st)
+            else:
+                self.mutate(base, t, 'item store', stmt_node=st)
             if isinstance(t.value, ast.Name) and t.value.id in env and not env[t.value.id].cont:
                 cur = env[t.value.id]
                 f = None
